@@ -13,10 +13,22 @@ def lossHist : Hist Nat := .merge (.upd (.new 2 1) [5]) (.merge (.upd (.new 2 1)
 
 theorem lossHist_n (c : Cfg) (hc : c.mergeSkipOnN = false) :
     lossHist.valid 2 ∧ (run c dropAll lossHist ()).1.n = 1 ∧ lossHist.inputs.length = 3 := by
-  obtain ⟨b1, b2, b3⟩ := c
+  obtain ⟨b1, b2, b3, b4⟩ := c
   simp only at hc
   subst hc
-  cases b2 <;> cases b3 <;> decide
+  cases b2 <;> cases b3 <;> cases b4 <;> decide
+
+/-! ### an empty top level (pinned shape of `compact()`) -/
+
+/-- {0} merged with {100} (k = 2), the compaction keeps nothing: the freshly pushed top level stays empty -/
+def emptyTopHist : Hist Nat := .merge (.upd (.new 2 1) [0]) (.upd (.new 2 1) [100])
+
+theorem emptyTopHist_levels (c : Cfg) (hc : c.popsEmptyTop = false) :
+    emptyTopHist.valid 2 ∧ (run c dropAll emptyTopHist ()).1.levels = [[], []] := by
+  obtain ⟨b1, b2, b3, b4⟩ := c
+  simp only at hc
+  subst hc
+  cases b1 <;> cases b2 <;> cases b3 <;> decide
 
 /-! ### negative estimate (level weight in 32-bit int) -/
 
@@ -33,7 +45,7 @@ def dblHist : Nat → Hist Rat
 
 def dblStep (c : Cfg) (s : Sketch Rat) : Sketch Rat := (merge c keepHalf () s s).1
 def dblChain (c : Cfg) : Nat → Sketch Rat
-  | 0 => (update keepHalf () (init 2 1) [0]).1
+  | 0 => (update c keepHalf () (init 2 1) [0]).1
   | i + 1 => dblStep c (dblChain c i)
 
 theorem dblHist_valid (i : Nat) : (dblHist i).valid 2 := by
@@ -53,16 +65,16 @@ theorem run_dblHist_fst (c : Cfg) (i : Nat) : (run c keepHalf (dblHist i) ()).1 
 def oneK : Point Rat → Point Rat → Rat := fun _ _ => 1
 
 /-- 2^36 points: 32 levels, 32 points of weight 2^31; the true mean of the kernel is 1, `get_estimate` computes −1 -/
-theorem dblChain36 (b1 b2 : Bool) :
-    let c : Cfg := { mergeSkipOnN := b1, queryChecksDim := b2, weight64 := false }
+theorem dblChain36 (b1 b2 b4 : Bool) :
+    let c : Cfg := { mergeSkipOnN := b1, queryChecksDim := b2, weight64 := false, popsEmptyTop := b4 }
     (dblChain c 36).levels.length = 32 ∧ (dblChain c 36).n = 2 ^ 36 ∧ estimateUB c (dblChain c 36) = false ∧
     estimate c oneK (dblChain c 36) [0] = -1 := by
-  cases b1 <;> cases b2 <;> decide +kernel
+  cases b1 <;> cases b2 <;> cases b4 <;> decide +kernel
 
 theorem dblChain36_est (c : Cfg) (hc : c.weight64 = false) : estimate c oneK (dblChain c 36) [0] = -1 := by
-  obtain ⟨b1, b2, b3⟩ := c
+  obtain ⟨b1, b2, b3, b4⟩ := c
   simp only at hc
   subst hc
-  exact (dblChain36 b1 b2).2.2.2
+  exact (dblChain36 b1 b2 b4).2.2.2
 
 end DS.Density
